@@ -24,6 +24,24 @@ func genC18(r *Rng, tier string, o *Out) {
 		}
 		raw := fmt.Sprintf("dvh_raw_%d_%d", os.Getpid(), i)
 		desc := fmt.Sprintf("dvh_desc_%d_%d", os.Getpid(), i)
+		if r.Chance(15) {
+			// a LEFTOVER region of an earlier writer (closed without Unlink, e.g. after a crash or restart): a
+			// ring created over it must start empty all the same
+			old, _ := ringbuffer.NewRingBuffer(raw, desc)
+			oldcap := r.Pick(capv, capv, 64, 100, r.Range(2, 4096))
+			if err := old.Create(oldcap); err == nil {
+				junk := make([]byte, r.Range(1, 2*oldcap))
+				for j := range junk {
+					junk[j] = 0xbb
+				}
+				for len(junk) > 0 {
+					nw, _ := old.Write(junk)
+					junk = junk[nw:]
+					old.Read(r.Range(0, oldcap))
+				}
+				old.Close()
+			}
+		}
 		wr, _ := ringbuffer.NewRingBuffer(raw, desc)
 		if err := wr.Create(capv); err != nil {
 			panic(err)
